@@ -544,3 +544,74 @@ func ZZ_C03_ternary() {
 		zz.Assertf(zzSameExpr(e1, e2), "C03.ternary/same-tree-as-explicit-parentheses/"+op, k.src+"  vs  "+k.ref)
 	}
 }
+
+// ZZ_C03_hex_binary_edge: hexadecimal and binary literals at the int64 edge:
+// accepted iff representable in int64 (0x8000000000000000 is not).
+func ZZ_C03_hex_binary_edge() {
+	if zz.Choose(2) == 0 {
+		// "0x" + d + 15 f's, d a symbolic hex digit
+		ds, vals := zzDigits(1, true)
+		src := []string{"0x", "0X"}[zz.Choose(2)] + ds + "fffffffffffffff"
+		rv, ok := zzParseLiteral(src)
+		if vals[0] <= 7 {
+			zz.Assert(ok && rv.Kind() == reflect.Int64, "C03.hex-edge/representable-accepted")
+			if ok && rv.Kind() == reflect.Int64 {
+				zz.Assert(rv.Int() == vals[0]<<60|0x0fffffffffffffff, "C03.hex-edge/exact-value")
+			}
+		} else {
+			_, err := ParseSrc(src)
+			zz.Assert(err != nil, "C03.hex-edge/not-representable-rejected")
+		}
+		return
+	}
+	// "0b" + b + 63 ones
+	ds, vals := zzDigits(1, false)
+	zz.Assume(vals[0] <= 1)
+	ones := ""
+	for i := 0; i < 63; i++ {
+		ones += "1"
+	}
+	src := "0b" + ds + ones
+	rv, ok := zzParseLiteral(src)
+	if vals[0] == 0 {
+		zz.Assert(ok && rv.Kind() == reflect.Int64 && rv.Int() == 9223372036854775807, "C03.binary-edge/representable-accepted")
+	} else {
+		_, err := ParseSrc(src)
+		zz.Assert(err != nil, "C03.binary-edge/not-representable-rejected")
+	}
+}
+
+// ZZ_C03_unary_stacking: unary operators nest right to left: `u1 u2 a` is
+// `u1 (u2 a)` for every pair, also under a binary operator and a postfix.
+func ZZ_C03_unary_stacking() {
+	us := []string{"-", "!", "^", "&", "*"}
+	u1, u2 := us[zz.Choose(len(us))], us[zz.Choose(len(us))]
+	if u1 == "-" && u2 == "-" {
+		return // "--" is the decrement token
+	}
+	if u1 == "&" && u2 == "&" {
+		return // "&&" is a token of its own
+	}
+	shapes := []struct{ src, ref string }{
+		{u1 + u2 + "a", u1 + "(" + u2 + "a)"},
+		{u1 + u2 + u2 + "a", u1 + "(" + u2 + "(" + u2 + "a))"},
+		{u1 + u2 + "a + b", "(" + u1 + "(" + u2 + "a)) + b"},
+		{u1 + u2 + "a[x]", u1 + "(" + u2 + "(a[x]))"},
+		{"b * " + u1 + u2 + "a", "b * (" + u1 + "(" + u2 + "a))"},
+	}
+	k := shapes[zz.Choose(len(shapes))]
+	if u2 == "-" && (k.src == shapes[1].src) {
+		return // "--"
+	}
+	if u2 == "&" && (k.src == shapes[1].src) {
+		return
+	}
+	ctx := zz.Choose(5)
+	e1, ok1 := zzExprOf(k.src, ctx)
+	e2, ok2 := zzExprOf(k.ref, ctx)
+	id := "C03.unary-stacking/" + u1 + u2
+	zz.Assert(ok1 && ok2, id+"/both-spellings-parse")
+	if ok1 && ok2 {
+		zz.Assertf(zzSameExpr(e1, e2), id+"/same-tree-as-explicit-parentheses", k.src+"  vs  "+k.ref)
+	}
+}
